@@ -290,3 +290,92 @@ def gen_program(rng, kind=None):
                 ind += 2
             g.emit(ind, "print! %s" % g.expr(vars_))
     return kind, "\n".join(g.lines) + "\n"
+
+
+# ---------------------------------------------------------------------------------------------------------------
+# Line geometry: gaps of comment/blank lines before a construct x number of lines of its body x kind of construct.
+# The line table encodes (address delta, line delta) with byte-sized fields, and a finished nested block is folded
+# into the enclosing entry, so what matters is how g, n and g + n sit relative to 127/128 and 255/256.
+GAPS = [0, 1, 2, 5, 20, 126, 127, 128, 200, 255, 256, 300]
+BODIES = [1, 2, 60, 100, 120, 126, 127, 128, 129, 200, 255, 256, 300]
+SHAPES = ["stmt", "def", "lambda", "class", "nested-def", "nested-lambda"]
+
+
+def geometry_grid():
+    return [(g, n, s) for s in SHAPES for g in GAPS for n in BODIES]
+
+
+def crosses(g, n):
+    """the sum crosses a byte boundary that neither part crosses alone (or sits exactly on one)"""
+    for t in (127, 255):
+        if (g <= t and n <= t and g + n > t) or g + n in (t, t + 1) or g in (t, t + 1) or n in (t, t + 1):
+            return True
+    return False
+
+
+def sample_cells(rng, k):
+    """quick tier: half uniformly from the grid, half from the cells whose sums cross 127/128/255/256"""
+    grid = geometry_grid()
+    hot = [c for c in grid if c[2] != "stmt" and crosses(c[0], c[1])]
+    return rng.sample(grid, k // 2) + rng.sample(hot, k - k // 2)
+
+
+def _gap(lines, ind, g, rng, tag):
+    pad = "    " * ind
+    for j in range(g):
+        if rng.random() < 0.5:
+            lines.append("")
+        else:
+            lines.append("%s# %s %d" % (pad, tag, j))
+
+
+def _body(lines, ind, n, arg, uid):
+    """n lines: n - 1 bindings and the result expression; the last line is n lines below the header"""
+    pad = "    " * ind
+    prev = arg
+    for j in range(n - 1):
+        v = "t%d_%d" % (uid, j)
+        lines.append("%s%s = %s + %d" % (pad, v, prev, j % 7))
+        prev = v
+    lines.append("%s%s + 1" % (pad, prev))
+
+
+def geometry_program(rng, cells, uid0=0):
+    """one program made of the given (gap, body lines, shape) cells, each preceded by an anchor statement"""
+    L = ["anchor0 = 0"]
+    for k, (g, n, shape) in enumerate(cells):
+        u = uid0 + k
+        if shape == "stmt":
+            _gap(L, 0, g, rng, "gap")
+            L.append("s%d = anchor0 + %d" % (u, n))
+            L.append("print! s%d" % u)
+        elif shape == "def":
+            _gap(L, 0, g, rng, "gap")
+            L.append("f%d(a: Int): Int =" % u)
+            _body(L, 1, n, "a", u)
+            L.append("print! f%d(%d)" % (u, k))
+        elif shape == "lambda":
+            _gap(L, 0, g, rng, "gap")
+            L.append("l%d = (a: Int) ->" % u)
+            _body(L, 1, n, "a", u)
+            L.append("print! l%d(%d)" % (u, k))
+        elif shape == "class":
+            _gap(L, 0, g, rng, "gap")
+            L.append("K%d = Class {.x = Int}" % u)
+            L.append("K%d." % u)
+            L.append("    m%d self =" % u)
+            _body(L, 2, n, "self.x", u)
+            L.append("print! K%d.new({.x = %d}).m%d()" % (u, k, u))
+        elif shape in ("nested-def", "nested-lambda"):
+            L.append("o%d(b: Int): Int =" % u)
+            L.append("    w%d = b + 1" % u)
+            _gap(L, 1, g, rng, "gap")
+            if shape == "nested-def":
+                L.append("    i%d(a: Int): Int =" % u)
+            else:
+                L.append("    i%d = (a: Int) ->" % u)
+            _body(L, 2, n, "a", u)
+            L.append("    i%d(w%d) + b" % (u, u))
+            L.append("print! o%d(%d)" % (u, k))
+        L.append("anchor%d = %d" % (u + 1, k))
+    return "\n".join(L) + "\n"
